@@ -2,7 +2,7 @@
 from hypothesis import strategies as st
 from vlib.core import Sub, Outcome
 from vlib import gen, sgrterm
-from vlib.interp import (Interp, BuilderInvalid, per_char, same_settings, tail_settings, change_points, describe,
+from vlib.interp import (Interp, BuilderInvalid, resolve_idx, per_char, same_settings, tail_settings, change_points, describe,
                          mk_settings, texts_of_specs, style, groups)
 from ansi_string import AnsiString, AnsiStr
 
@@ -36,7 +36,7 @@ def eval_apply(case):
         o.skipped = 'builder_invalid'
         return o
     S = case['s']
-    a, b, top = case['a'], case['b'], case['top']
+    a, b, top = resolve_idx(case['a'], v), resolve_idx(case['b'], v), case['top']
     t = v.base_str
     n = len(t)
     before = ids_per_char(v)
@@ -150,14 +150,15 @@ def strat():
     cfg = CFG
     s = st.one_of(gen.specs(cfg, 1, 3), gen.specs(cfg, 1, 3), gen.specs(cfg, 1, 3), gen.specs(cfg, 1, 3),
                   st.sampled_from([[], [{'k': 'str', 'v': ''}], [{'k': 'str', 'v': ';;'}], [{'k': 'list', 'v': []}]]))
-    return st.fixed_dictionaries({'p': gen.progs(cfg), 's': s, 'a': gen.idx(), 'b': gen.idx(),
+    return st.fixed_dictionaries({'p': gen.progs(cfg), 's': s, 'a': gen.ridx(), 'b': gen.ridx(),
                                   'top': st.booleans()})
 
 
 @st.composite
 def strat_under(draw):
     """apply underneath / on top of a value with staggered conflicting settings (the topmost machinery)."""
-    names = ['red', 'blue', 'bold', 'faint', 'no_bold_faint', 'fg_default', 'underline', 'no_underline', 'orange', 'bg_red', 'italic']
+    names = ['red', 'blue', 'bold', 'faint', 'no_bold_faint', 'fg_default', 'underline', 'no_underline', 'orange', 'bg_red', 'italic',
+             'rgb(1,2,3)', 'color256(9)', 'rgb(1,2,3)']
     n = draw(st.integers(2, 7))
     t = draw(gen.texts(n, n, nonascii=False))
     rs = []
